@@ -637,3 +637,160 @@ def folder_reuse(args):
     finally:
         if not args.get("keep"):
             shutil.rmtree(rundir, ignore_errors=True)
+
+
+# ---------------------------------------------------------------------------------------------------------------
+# C20, second system: only the cache functions of the aligner path (index / BED / alignment caches), driven with stub
+# artefacts because no aligner exists in the sandbox.  2-8 concurrent actors, each following the lookup -> build -> store
+# cycle that DataSetReadMapper performs.
+def _cachefn_actor(persona, rundir, home):
+    """runs inside the forked actor (seams installed, HOME set).  Returns list of problem strings via a result file."""
+    import argparse
+    import isoquant
+    from src import read_mapper
+    problems = []
+    a = argparse.Namespace(reference=persona["reference"], data_type=persona["data_type"], genedb=persona["genedb"],
+                           clean_start=False, output=persona["out"], index=None)
+    isoquant.set_configs_directory(a)
+    kmer = read_mapper.KMER_SIZE[a.data_type]
+
+    def read_tag(path):
+        with open(path) as f:
+            return f.read().strip()
+
+    def tag_of(path):
+        with open(path) as f:
+            return hashlib.sha256(f.read().encode()).hexdigest()[:10]
+    os.makedirs(persona["out"], exist_ok=True)
+    ref_tag = tag_of(persona["reference"])
+    idx = read_mapper.find_stored_index(a)
+    if idx is None:
+        idx = os.path.join(persona["out"], "ref_k%s_idx" % kmer)
+        with open(idx, "w") as f:
+            f.write("index|%s|k%s\n" % (ref_tag, kmer))
+        read_mapper.store_index(idx, a)
+    else:
+        t = read_tag(idx)
+        if t != "index|%s|k%s" % (ref_tag, kmer):
+            problems.append("index cache returned %s with content %r for reference tag %s k%s" % (idx, t, ref_tag, kmer))
+    a.index = idx
+    gdb_tag = tag_of(persona["genedb"])
+    bed = read_mapper.find_stored_bed(a)
+    if bed is None:
+        bed = os.path.join(persona["out"], "genes.bed")
+        with open(bed, "w") as f:
+            f.write("bed|%s\n" % gdb_tag)
+        read_mapper.store_bed(bed, a)
+    else:
+        t = read_tag(bed)
+        if t != "bed|%s" % gdb_tag:
+            problems.append("BED cache returned %s with content %r for annotation tag %s" % (bed, t, gdb_tag))
+    idx_tag = read_tag(idx)
+    bed_tag = read_tag(bed)
+    for fq in persona["fastqs"]:
+        fq_tag = tag_of(fq)
+        bam = read_mapper.find_stored_alignment(fq, bed, a)
+        want = "aln|%s|%s|%s" % (fq_tag, idx_tag, bed_tag)
+        if bam is None:
+            bam = os.path.join(persona["out"], os.path.basename(fq) + ".bam")
+            with open(bam, "w") as f:
+                f.write(want + "\n")
+            read_mapper.store_alignment(bam, fq, bed, a)
+        else:
+            t = read_tag(bam)
+            if t != want:
+                problems.append("alignment cache returned %s with content %r, expected %r" % (bam, t, want))
+    return problems
+
+
+def cache_functions(args):
+    """args: personas [{ref: i, data_type, genedb: j, fastqs: [k..], out: name}], sched, n_inputs"""
+    import json as _json
+    from .engine import Hub, Templater, HarnessError, become_subreaper
+    t0 = time.time()
+    rundir = new_rundir("k")
+    try:
+        become_subreaper()
+        home = os.path.join(rundir, "home")
+        os.makedirs(home)
+        inp = os.path.join(rundir, "inputs")
+        os.makedirs(inp)
+        files = {}
+        for kind, n in (("ref", 3), ("gdb", 3), ("fq", 4)):
+            for i in range(n):
+                p = os.path.join(inp, "%s%d.%s" % (kind, i, {"ref": "fa", "gdb": "db", "fq": "fastq"}[kind]))
+                with open(p, "w") as f:
+                    f.write("%s %d content\n" % (kind, i))
+                files[(kind, i)] = p
+        personas = []
+        for k, pr in enumerate(args["personas"]):
+            personas.append({"reference": files[("ref", pr["ref"])], "data_type": pr["data_type"],
+                             "genedb": files[("gdb", pr["genedb"])], "fastqs": [files[("fq", q)] for q in pr["fastqs"]],
+                             "out": os.path.join(rundir, "out_%d" % k)})
+        chooser = simrun.make_chooser(args.get("sched"))
+        dirs = [(rundir, "<run>"), (home, "<home>")]
+        hub = Hub(chooser, templ=Templater(dirs), step_cap=100000, wall_cap=60.0, nslots=max(2, len(personas)))
+        cfg = os.path.join(home, ".config", "IsoQuant")
+        shared = [cfg, rundir + os.sep + "out_"]
+        sys.stdout.flush(); sys.stderr.flush()
+        for i, ps in enumerate(personas):
+            pid = os.fork()
+            if pid == 0:
+                code = 1
+                try:
+                    socks = hub.actor_socks()
+                    for pr_ in hub.pairs:
+                        pr_[0].close()
+                    fd = os.open(os.path.join(rundir, "actor%d.log" % i), os.O_WRONLY | os.O_CREAT | os.O_APPEND, 0o644)
+                    os.dup2(fd, 1); os.dup2(fd, 2)
+                    os.environ["HOME"] = home
+                    os.chdir(rundir)
+                    from . import seams
+                    seams.install(socks[i], socks, (), rundir, shared_prefixes=shared, logical_mtime=True, slot=i)
+                    seams.hello()
+                    seams._recv()
+                    try:
+                        probs = _cachefn_actor(ps, rundir, home)
+                        code = 0
+                    except BaseException:
+                        import traceback
+                        probs = ["actor raised: " + traceback.format_exc()[-800:]]
+                        code = 3
+                    with seams._real_open(os.path.join(rundir, "result%d.json" % i), "w") as f:
+                        _json.dump(probs, f)
+                    seams._send({"t": "bye", "code": code})
+                finally:
+                    os._exit(code)
+            hub.register(i, pid, "actor%d" % i)
+        hub.close_actor_side()
+        err = None
+        try:
+            r = hub.run(tuple(range(len(personas))))
+        except HarnessError as e:
+            hub.kill_all()
+            r = {}
+            err = str(e)
+        finally:
+            hub.close()
+        out = {"harness_error": err, "events": hub.ev_seq, "trace_sha": simrun.trace_digest(hub.trace), "picks": list(chooser.picks),
+               "actors": [], "exit_codes": r.get("exit_codes")}
+        for i in range(len(personas)):
+            try:
+                with open(os.path.join(rundir, "result%d.json" % i)) as f:
+                    out["actors"].append(_json.load(f))
+            except (OSError, ValueError):
+                out["actors"].append(["actor produced no result (died?)"])
+        bad = []
+        if os.path.isdir(cfg):
+            for fn in sorted(os.listdir(cfg)):
+                try:
+                    with open(os.path.join(cfg, fn)) as f:
+                        _json.load(f)
+                except Exception as e:
+                    bad.append("%s: %s" % (fn, type(e).__name__))
+        out["cache_malformed"] = bad
+        out["wall"] = time.time() - t0
+        return out
+    finally:
+        if not args.get("keep"):
+            shutil.rmtree(rundir, ignore_errors=True)
